@@ -181,6 +181,12 @@ def gen_rtext(tier, rng):
         if rng.random() < 0.3: t = ' ' * rng.randint(1, 2) + t
         if rng.random() < 0.3: t = t + ' ' * rng.randint(1, 2)
         texts.append(t)
+    # comparators whose version text is as long as MAX_LENGTH and a little longer (Range::parse has no length limit of its own), with the
+    # hyphen of the tag written and left out, long build metadata, under every kind of operator and inside hyphen ranges
+    for L in (200, 250, 254, 255, 256, 257, 258, 300):
+        for body in ('1.2.3-' + 'a' * (L - 6), '1.2.3' + 'a' * (L - 5), '1.2.3-a+' + 'b' * (L - 8), '1.2.3-' + '.'.join(['a1'] * ((L - 6) // 3))):
+            for shape in ('%s', '^%s', '~%s', '>=%s <2', '>%s', '<=%s || 5.x', '%s - 2', '1 - %s', '>=1.0.0 %s', 'v%s'):
+                texts.append(shape % body)
     texts = list(dict.fromkeys(texts))
     cases = []; table = {}; inl = 0
     extra_v = [V(MAX, MAX, MAX)]
@@ -367,6 +373,11 @@ def gen_rprint(tier, rng):
     n = 1500 if tier == 'quick' else 30000
     for _ in range(n):
         exprs.append(E_parse(RG.render(RG.random_range(rng, [0, 1, 2, MAX] + HV.nums(2), garbage=0.03))))
+    # comparators at and around MAX_LENGTH bytes, hyphen of the tag written and left out (the printed form re-inserts it)
+    for L in (250, 254, 255, 256, 257, 258, 300):
+        for body in ('1.2.3-' + 'a' * (L - 6), '1.2.3' + 'a' * (L - 5), '1.2.3-a+' + 'b' * (L - 8)):
+            for shape in ('%s', '^%s', '>=%s <2', '>%s <3 || 5.x', '%s - 2', '1 - %s'):
+                exprs.append(E_parse(shape % body))
     # results of set operations (shapes parse never produces: exclusive lower with inclusive upper, flipped bounds, several pieces)
     ivs = [e for (_, e) in fam_sets.interval_texts(U6)]
     for u in magic_universes(): ivs += [e for (_, e) in fam_sets.interval_texts(u)]
